@@ -29,6 +29,10 @@ func VerifC02_FetchBlock() {
 	key := cidlink.Link{Cid: c}.Binary()
 
 	body := verif_Bytes("body", verif_Choose("bodyLen", 0, 3+3*verif_Tier())) // empty, truncated, extended, altered or another block
+	if verif_Bool("bodyIsTheGenuineBlockAfterAPrefix") {
+		// the genuine block behind up to three arbitrary bytes (a byte order mark, say)
+		body = append(verif_Bytes("prefix", verif_Choose("prefixLen", 1, 3)), good...)
+	}
 	status := []int{200, 200, 404, 500}[verif_Choose("status", 0, 3)]
 	transportErr := verif_Bool("transportError")
 
